@@ -151,3 +151,39 @@ func ZZ_C11_ReadFromRace(q, until, closeArg int) {
 	_ = n
 	vrt.Reach("c11-readfrom-race-done")
 }
+
+// ZZ_C11_TwoClosers: two goroutines call Close concurrently; the one that loses returns at once while the other is
+// still inside Close (waiting for the sender, closing the transport). A write that begins after ANY Close call has
+// returned fails and transmits nothing.
+func ZZ_C11_TwoClosers(q, until, entry int) {
+	tr := newZZTransport()
+	tr.yield = true
+	pl := NewPipeline()
+	probe := &zzProbe{swallowEx: true}
+	pl.AddLast(probe)
+	ch := zzNewChannel(pl, tr, q, until != 0)
+	anyReturned := false
+	vrt.Facet("entry", entry)
+	vrt.Go("closer0", func() {
+		ch.Close(zzErrUserClose)
+		anyReturned = true
+	})
+	vrt.Go("closer1", func() {
+		ch.Close(nil)
+		anyReturned = true
+	})
+	vrt.Go("writer", func() {
+		vrt.Yield()
+		after := anyReturned
+		before := len(tr.log)
+		n, err := zzCall7(ch, entry, []byte{7, 8, 9})
+		if after {
+			vrt.Reach("c11-write-began-after-a-close-returned")
+			vrt.Assert(err != nil, "c11-write-after-close-fails")
+			vrt.Assert(n <= 0, "c11-write-after-close-reports-nothing-written")
+			vrt.Assert(len(tr.log) == before, "c11-nothing-transmitted-after-close")
+		}
+	})
+	vrt.Quiesce()
+	vrt.Reach("c11-two-closers-done")
+}
